@@ -1229,7 +1229,7 @@ def main(tier: str, seed: int, replay: str | None = None) -> int:
     if tier == "quick":
         cases = gen_cases(rng, 40, 25, 4)
     else:
-        cases = gen_cases(rng, 700, 40, 4)
+        cases = gen_cases(rng, 400, 40, 4)
     run = Runner(rep)
     run.run(cases, tier)
     rep.coverage.update({
